@@ -10,6 +10,7 @@ list (modulo its length), so deleting an op while shrinking keeps the rest meani
   ["add_nested", name]        add_child(<a CHECKED child holding one child of its own>)
   ["share_out", i]            <another element of e's class>.add_child(model[i]): the child object now has two parents
   ["add_again", i]            add_child(model[i]) once more
+  ["replace_self", i, dot]    replace_child(model[i], model[i]) / xml_<name> = model[i]: a no-op exchange
   ["remove_grandchild", i]    remove(<first child of the i-th held child that has children>): not a child of e
   ["remove_elsewhere", name]  remove(<a child attached to ANOTHER checked element of e's class>): the bystander must
                               stay as it was (recorded in obs()['side_effects'])
@@ -33,7 +34,7 @@ from .driver import call, py_name, stub
 from .oracle import lexical
 from .oracle.schema import parikh, schema
 
-STRUCT_OPS = ('add', 'add_fwd', 'add_nested', 'remove', 'remove_nonchild', 'remove_grandchild', 'remove_elsewhere', 'replace', 'replace_fn', 'replace_nonchild', 'dot_inst',
+STRUCT_OPS = ('add', 'add_fwd', 'add_nested', 'replace_self', 'remove', 'remove_nonchild', 'remove_grandchild', 'remove_elsewhere', 'replace', 'replace_fn', 'replace_nonchild', 'dot_inst',
               'dot_val', 'dot_none')
 # integers beyond the range of a double: whatever the library answers, it must be one of its documented answers
 EXTREME = [10 ** 400, -10 ** 400]
@@ -213,6 +214,16 @@ class Run:
                     self.flags.add('replaced')
                 else:
                     self.flags.add('replace-fn-target-unknown')
+        elif k == 'replace_self':
+            # a child is exchanged for ITSELF (replace_child(c, c), or xml_x = the child that is already there)
+            if not self.model:
+                return self._finish(op, None)
+            c = self.model[op[1] % len(self.model)]
+            if len(op) > 2 and op[2] and self.first_named(c.name) is c:
+                r = call(setattr, e, 'xml_' + py_name(c.name), c)
+            else:
+                r = call(e.replace_child, c, c)
+            self.flags.add('replace-self')
         elif k == 'replace_nonchild':
             old = self._new(op[1], idx)
             new = self._new(op[1], idx)
@@ -385,6 +396,7 @@ DEFAULT_WEIGHTS = {
     'add': 10, 'add_fwd': 2, 'remove': 3, 'remove_nonchild': 1, 'replace': 2, 'replace_fn': 1, 'replace_nonchild': 1,
     'dot_inst': 2, 'dot_val': 1, 'dot_none': 2, 'to_string': 2, 'deepcopy': 0, 'set_attr': 0, 'set_attr_none': 0,
     'set_value': 0, 'add_nested': 0, 'remove_grandchild': 0, 'remove_elsewhere': 0, 'share_out': 0, 'add_again': 0,
+    'replace_self': 0,
 }
 
 
@@ -424,7 +436,7 @@ def draw_op(data, run, weights=None, sym_bias=None):
     if weights:
         w.update(weights)
     if not run.model:
-        for k in ('remove', 'replace', 'replace_fn', 'share_out', 'add_again'):
+        for k in ('remove', 'replace', 'replace_fn', 'share_out', 'add_again', 'replace_self'):
             w[k] = 0
     if not text_children(run):
         w['dot_val'] = 0
@@ -449,6 +461,8 @@ def draw_op(data, run, weights=None, sym_bias=None):
         return ['remove_grandchild', data.draw(st.integers(0, 3))]
     if k in ('share_out', 'add_again'):
         return [k, data.draw(st.integers(0, max(len(run.model) - 1, 0)))]
+    if k == 'replace_self':
+        return [k, data.draw(st.integers(0, max(len(run.model) - 1, 0))), data.draw(st.integers(0, 1))]
     if k == 'remove_elsewhere':
         return ['remove_elsewhere', data.draw(st.sampled_from(run.alphabet))]
     if k == 'replace':
